@@ -294,7 +294,7 @@ static L2Apply apply_l2(cell_ptr c, const Op& op, bool& stale) {
             // solver order: forces (refresh) -> integrate (moves nodes) -> refine.  Geometry is refreshed unless the history says otherwise.
             Snap before = snap_of(*c); std::string key_before = sc::canon_cell(*c, false);
             bool unchanged_expected = (!stale && in_band_and_good(*c, lmr, c)) || (op.kind == L2_REFINE_NOSWAP && [&] { for (const edge& e : c->edge_set_) { double l2 = (c->node_lst_[e.n1()].pos_ - c->node_lst_[e.n2()].pos_).squared_norm(); if (!(l2 <= L_MAX * L_MAX && l2 >= L_MIN * L_MIN)) return false; } return true; }());
-            g_pass = InPass(); g_pass.active = true; g_pass.c = c.get(); g_pass.max_ops = 50 * (long)c->edge_set_.size() + 50; g_pass.lmin2 = L_MIN * L_MIN; g_pass.lmax2 = L_MAX * L_MAX; g_pass.stale = stale;
+            g_pass = InPass(); g_pass.active = true; g_pass.c = c.get(); g_pass.max_ops = 50 * (long)c->edge_set_.size() + 50 + (long)(40.0 * (double)before.area / (L_MIN * L_MIN));   /* a mesh whose edges are all >= l_min has O(area / l_min^2) triangles */ g_pass.lmin2 = L_MIN * L_MIN; g_pass.lmax2 = L_MAX * L_MAX; g_pass.stale = stale;
             try { lmr.refine_mesh(c); }
             catch (op_bound_exceeded&) { g_pass.active = false; r.err = "pass-does-not-terminate-within-operation-bound: more than " + std::to_string(g_pass.max_ops) + " operations"; return r; }
             catch (std::exception& e) { r.threw = true; }        // failure reported by exception is allowed by the statement
